@@ -87,7 +87,8 @@ class Layer(e2.Case):
             with w.patched(ti), w.patched(tt), fs.installed(w):
                 pio = PyramidIO("/t", default_format=self.dfmt)
                 path = pio.tile_path(pos, format=self.ofmt or self.dfmt, makedirs=False)
-                if not self.clobber and not self.filtered:
+                upd_override = (not self.clobber) and (not self.filtered) and self.ofmt is not None
+                if not self.clobber and not self.filtered and not upd_override:
                     # update mode starts from an arbitrary existing tile at the inspected position (or none)
                     if bool(w.bool("had_tile")):
                         och = 4 if self.kind == "RGB" else ch
@@ -100,7 +101,9 @@ class Layer(e2.Case):
                 else:
                     from toasty.pyramid import Pyramid
                     p = Pyramid.new_toast(self.depth, coordsys=coordsys)
-                    proc = tt.ToastSampler(pio, sampler, False)
+                    # update mode with a format override: whichever format the tile ends up in, its rows must follow
+                    # THAT format's vertical parity
+                    proc = tt.ToastSampler(pio, sampler, False, format=self.ofmt) if upd_override else tt.ToastSampler(pio, sampler, False)
                     p.visit_leaves(proc.visit_callback, parallel=1)
         finally:
             tt.subsample = saved_sub
@@ -112,6 +115,14 @@ class Layer(e2.Case):
         # which subsample call belongs to the inspected tile?
         ks = [k for k, c in enumerate(sub_calls) if _np.allclose(c["corners"], want_corners, rtol=0, atol=1e-12) and c["inc"] == want_inc]
         f = fs.files.get(path)
+        stored_fmt = self.ofmt or self.dfmt
+        if (not self.clobber) and (not self.filtered) and self.ofmt is not None:
+            alt = path[:path.rindex(".") + 1] + self.dfmt
+            both = [(fm, fs.files.get(pp)) for fm, pp in ((self.ofmt, path), (self.dfmt, alt)) if fs.files.get(pp) is not None]
+            if len(both) == 1:
+                stored_fmt, f = both[0]
+            elif len(both) == 2:
+                stored_fmt, f = "both", None
         saves = [p_ for (kk, p_) in fs.log if kk == "save"]
         accepted = None
         if self.filtered:
@@ -119,7 +130,7 @@ class Layer(e2.Case):
                 ((fmask >> ((ty >> (self.depth - 1)) * 2 + (tx >> (self.depth - 1)))) & 1) == 1
         return dict(pos=pos, path=path, stored=None if f is None else f["arr"], ks=ks, sub_calls=sub_calls, samp_calls=samp_calls,
                     saves=saves, nfiles=len([p_ for p_ in fs.files if not p_.endswith(".lock")]), old=old, accepted=accepted,
-                    locks_left=len(fs.locks), files=sorted(fs.files), fmask=fmask)
+                    locks_left=len(fs.locks), files=sorted(fs.files), fmask=fmask, stored_fmt=stored_fmt)
 
     def same_path(self, so, ro):
         return (so["stored"] is None) == (ro["stored"] is None)
@@ -127,7 +138,8 @@ class Layer(e2.Case):
     def claims(self, w, o):
         depth = self.depth
         ntiles = 4 ** depth
-        stored_fmt = self.ofmt or self.dfmt
+        stored_fmt = o.get("stored_fmt", self.ofmt or self.dfmt)
+        w.claim("stored-in-one-format", stored_fmt != "both", probe=lambda ro, val: ro.get("stored_fmt") != "both", what="the tile was written in two formats")
         bu = stored_fmt == "fits"
         if self.filtered and not o["accepted"]:
             w.claim("rejected-tile-not-written", o["stored"] is None and o["ks"] == [], probe=lambda ro, val: ro["stored"] is None,
@@ -166,6 +178,8 @@ class Layer(e2.Case):
         w.pixel(*idx)
         w.pixel(r, c)
         sr = (255 - I(r)) if bu else I(r)
+        w.pixel(sr, I(c))
+        w.pixel(255 - I(r), I(c))
         if self.clobber:
             want = samp.get((sr, I(c)) + ((I(chv),) if och else ()))
             und = None
@@ -270,6 +284,8 @@ def cases(tier):
         Layer(1, "F32", "npy", None, False, True, False),
         Layer(1, "RGB", "png", None, False, False, False),
         Layer(1, "F32", "fits", None, False, False, True),
+        Layer(1, "F32", "npy", "fits", False, False, False),     # update mode with a format override of the opposite parity
+        Layer(1, "F32", "fits", "npy", False, False, False),
         Layer(2, "F32", "fits", None, True, False, False),
         DepthZero(),
     ]
